@@ -11,6 +11,7 @@ import (
 	"strconv"
 	"strings"
 	"sync"
+	"sync/atomic"
 	"time"
 
 	"github.com/btcsuite/btcd/chaincfg/v2"
@@ -306,11 +307,18 @@ type hsCfg struct {
 	rejectVer bool
 }
 
-var nonceCtr uint64 = 0x5eed000000000001
+var nonceCtr atomic.Uint64
+
+func init() { nonceCtr.Store(0x5eed000000000001) }
+
+func nextNonce() uint64 { return nonceCtr.Add(0x9E3779B97F4A7C15) }
 
 // runHS drives one real peer with the scripted remote and returns the
 // canonical observation.
-func runHS(c hsCfg, toks []string) string {
+func runHS(c hsCfg, toks []string) string { return runHSx(c, toks, true) }
+
+// runHSx: census=false skips the goroutine census (concurrent instances share it).
+func runHSx(c hsCfg, toks []string, census bool) string {
 	params := &chaincfg.MainNetParams
 	if c.regtest {
 		params = &chaincfg.RegressionNetParams
@@ -326,6 +334,7 @@ func runHS(c hsCfg, toks []string) string {
 
 	var mu sync.Mutex
 	var cbs, rds []string
+	ackPver := "-"
 	cb := func(name string) {
 		mu.Lock()
 		cbs = append(cbs, name)
@@ -339,7 +348,12 @@ func runHS(c hsCfg, toks []string) string {
 			}
 			return nil
 		},
-		OnVerAck:      func(p *peer.Peer, m *wire.MsgVerAck) { cb("verack") },
+		OnVerAck: func(p *peer.Peer, m *wire.MsgVerAck) {
+			cb("verack")
+			mu.Lock()
+			ackPver = strconv.FormatUint(uint64(p.ProtocolVersion()), 10)
+			mu.Unlock()
+		},
 		OnSendAddrV2:  func(p *peer.Peer, m *wire.MsgSendAddrV2) { cb("sendaddrv2") },
 		OnPing:        func(p *peer.Peer, m *wire.MsgPing) { cb("ping") },
 		OnPong:        func(p *peer.Peer, m *wire.MsgPong) { cb("pong") },
@@ -423,8 +437,7 @@ func runHS(c hsCfg, toks []string) string {
 		switch f[0] {
 		case "v":
 			pv, _ := strconv.ParseUint(f[1], 10, 32)
-			nonceCtr += 0x9E3779B97F4A7C15
-			nonce := nonceCtr
+			nonce := nextNonce()
 			if f[2] == "1" {
 				if c.inbound {
 					peer.VerifSentNonceAdd(nonce)
@@ -509,7 +522,7 @@ func runHS(c hsCfg, toks []string) string {
 	case <-time.After(waitLimit):
 		note += " note=no-disconnect"
 	}
-	if !waitCensusClean() {
+	if census && !waitCensusClean() {
 		note += " note=goroutine-leak"
 	}
 	if rd.waitFor(func([]wmsg) bool { return false }) != "eof" {
@@ -531,8 +544,20 @@ func runHS(c hsCfg, toks []string) string {
 		}
 		return "0"
 	}
-	return fmt.Sprintf("rd=%s cb=%s w=%s pver=%d vk=%s va=%s%s", joinOrDash(rds), joinOrDash(cbs),
-		joinOrDash(ws), p.ProtocolVersion(), b(p.VersionKnown()), b(p.VerAckReceived()), note)
+	// Accessors are read twice, in different orders: the answers are values.
+	pv1, wh1, wa1, wit1 := p.ProtocolVersion(), p.WantsHeaders(), p.WantsAddrV2(), p.IsWitnessEnabled()
+	_ = p.StatsSnapshot()
+	wit2, wa2, wh2, pv2 := p.IsWitnessEnabled(), p.WantsAddrV2(), p.WantsHeaders(), p.ProtocolVersion()
+	if pv1 != pv2 || wh1 != wh2 || wa1 != wa2 || wit1 != wit2 || p.Inbound() != c.inbound || p.Connected() {
+		note += " note=accessor-instability"
+	}
+	select {
+	case <-p.Done():
+	default:
+		note += " note=done-open"
+	}
+	return fmt.Sprintf("rd=%s cb=%s w=%s pver=%d vk=%s va=%s ack=%s wh=%s wa=%s wit=%s%s", joinOrDash(rds), joinOrDash(cbs),
+		joinOrDash(ws), pv1, b(p.VersionKnown()), b(p.VerAckReceived()), ackPver, b(wh1), b(wa1), b(wit1), note)
 }
 
 func joinOrDash(xs []string) string {
